@@ -13,6 +13,12 @@ c02_util.py), through
     points, list, tuple, negative, empty, read-only, strided), element by element against the
     array form and the scalar form
 
+  * the point array and the shape stored in DIFFERENT coordinate subtypes (all 20 ordered pairs
+    of float64 / float32 / int64 / int32 / int16), coordinates that coincide only after rounding
+    to the narrower type (1 + 2^-30 against 1, 2^24 + 1 against 2^24, 2.5 against 2, 65538 against
+    2, 0.1 against float32(0.1)), all six kinds, all three forms and GeoSeries.intersects:
+    harness/c02_mixed.py (the model and the oracle work on the coordinates scaled by 2^60)
+
 compared with Model/PointShape.v (three_forms) evaluated by the Coq kernel on the exported
 buffers of the very same point array and scalar shape; and both the implementation and the
 model compared with an independent exact oracle (Fractions; ray of slope 1/D) on every
@@ -38,6 +44,11 @@ TRUSTED = ['model input of a scalar shape = zero-offset buffer rebuilt from its 
            'A-FLOAT: float32/int arithmetic on the enumerated small integers is exact (float64: a theorem, '
            'C02_*_float_exact, about Model/FloatKernels.v, which harness/cfloat_util.py compares with the '
            'real kernels on arbitrary float64 inputs)',
+           'mixed coordinate subtypes (harness/c02_mixed.py): the values are chosen so that every difference and '
+           'product the kernels form is exact in the arithmetic it is carried out in; the Z model is evaluated on '
+           'the coordinates scaled by 2^60 (the predicate is invariant under scaling); int64 coordinates beyond '
+           '2^53 against float64 ones are outside (the code converts int64 to binary64: recorded in the '
+           'evidence as beyond_binary64, not demanded)',
            'numba.set_num_threads(1) during the run (the kernels hold no prange loop; scheduling only)']
 
 IMPORTS = 'Model.Num Model.Arrow Model.PointKernels Model.PointShape Model.PointShapeHarness'
@@ -657,7 +668,12 @@ def run(rep):
                 'shape through array / inds / scalar forms, all 5 subtypes; the positions form also with inds '
                 'as int8/uint8/int16/uint16/int32/uint32/int64 arrays beyond half the type\'s range (400 and '
                 '33100 points), list, tuple, negative, empty, read-only, strided, against each shape kind, '
-                'element by element against the array and the scalar form; a case is one shape x one '
+                'element by element against the array and the scalar form; point array and shape in different '
+                'coordinate subtypes (20 ordered pairs; values coinciding only after rounding to the narrower type: '
+                'k+-2^-30, k+-2^-20, halves, 2^24+j, 65536+j, 2^32+j, 0.1 vs float32(0.1); x or y axis; six kinds, '
+                'typed scalars built from numpy arrays / arrow scalars; array, positions, scalar and GeoSeries '
+                'forms; quick: compiled kernels for 6 of the pairs, kind point and scalar multipoint for all); '
+                'a case is one shape x one '
                 'point array (56 slots); non-trivial = the answers contain both True and False; '
                 'distinct = distinct (kind, coordinates)')
     variants = build_variants()
